@@ -83,7 +83,7 @@ impl Prop for C09 {
         vec![("replacement", 0.3), ("refused-older", 0.2), ("near-addresses", 0.15)]
     }
     fn release_fraction(&self, tier: Tier) -> f64 {
-        tier.pick(0.3, 0.5)
+        tier.pick(0.3, 0.1)
     }
     fn max_shrink_iters(&self) -> u32 {
         400
